@@ -178,7 +178,7 @@ func (sp *specT) build(req *dns.Msg, base int64) *dns.Msg {
 				m.Answer = append(m.Answer, a)
 			}
 		case 'g':
-			sg := mkSig(owner, it.ttl, sigExp(base, it.a))
+			sg := invert(mkSig(owner, it.ttl, sigExp(base, it.a)), it.inv)
 			sg.KeyTag = uint16(sp.mark)
 			sg.Labels = 3
 			if sp.kind == 'c' {
@@ -199,7 +199,7 @@ func (sp *specT) build(req *dns.Msg, base int64) *dns.Msg {
 			so.Serial = uint32(sp.mark)
 			m.Ns = append(m.Ns, so)
 		case 'g':
-			sg := mkSig(nso, it.ttl, sigExp(base, it.a))
+			sg := invert(mkSig(nso, it.ttl, sigExp(base, it.a)), it.inv)
 			sg.TypeCovered = dns.TypeSOA
 			sg.KeyTag = uint16(sp.mark)
 			sg.Labels = 4
@@ -421,10 +421,16 @@ func (h *histT) run(route string, req *dns.Msg) *dns.Msg {
 	case "dwire":
 		ch.Reset(w, req)
 		ch.AllowDirectPack()
-	case "wire":
+	case "wire", "lwire":
 		raw, err := req.Pack()
 		r := new(middleware.Request)
-		if err == nil && r.ParseWire(raw, time.Now(), nil) {
+		stamp := time.Now()
+		if route == "lwire" {
+			// the transport read the packet three seconds before it is served (a job queued behind
+			// slow work, a recvmmsg batch): lifetimes are judged at the serve instant
+			stamp = stamp.Add(-3 * time.Second)
+		}
+		if err == nil && r.ParseWire(raw, stamp, nil) {
 			ch.ResetWire(w, r)
 		} else {
 			ch.Reset(w, req)
